@@ -5,7 +5,7 @@ from hypothesis import strategies as st
 
 from pv import catalog, catgen, codec, gen
 from pv.core import Sub, Fail, exc_fail
-from pv.probes import Counting, Boom
+from pv.probes import Counting, Boom, BOOM_KINDS
 from pv.ref import base as R
 
 ID = "C11"
@@ -180,6 +180,7 @@ def _history_case(draw, tier, names):
             steps.append(["full"])
     steps.append(["full"])
     c["steps"] = steps
+    c["fail_kind"] = draw(st.sampled_from(BOOM_KINDS))
     return c
 
 
@@ -235,6 +236,7 @@ def check_history(case, ctx):
                 continue   # nothing to fail at
             armed = si
             srcs[si].fail_at = at
+            srcs[si].fail_kind = case.get("fail_kind", "plain")
             ctx.label("failpass")
         started_before = started
         started = True
